@@ -229,6 +229,24 @@ def check_input_signatures(run, model, env, rng, idx):
         else:
             outs.append(Output.pay_update_claim_pubkey_hash(amt, 'up', rng.randbytes(20).hex(), random_claim(rng), rng.randbytes(20)))
     tx = Transaction().add_inputs(ins).add_outputs(outs)
+    staged = rng.random() < 0.45
+    if staged:
+        # the daemon's publish flow: the unsigned transaction is sized / serialised first, then an output is
+        # changed in place (channel signature, channel key), and only then are the inputs signed
+        _ = (tx.size, tx.raw, tx.id) if rng.random() < 0.7 else tx.size
+        which = rng.random()
+        if which < 0.5:
+            late = Output.pay_claim_name_pubkey_hash(CENT, 'late%d' % rng.randrange(9), random_claim(rng), rng.randbytes(20))
+            tx.add_outputs([late])
+            _ = tx.size
+            late.sign(env.channel(rng, rng.randrange(0, 4)))
+        elif which < 0.8:
+            chan = Output.pay_claim_name_pubkey_hash(CENT, '@late', Claim(), rng.randbytes(20))
+            tx.add_outputs([chan])
+            _ = tx.raw
+            chan.set_channel_private_key(env.root.child(KeyPath.CHANNEL).child(20 + rng.randrange(5)))
+        else:
+            tx.outputs[0].amount = tx.outputs[0].amount + 1 if hasattr(tx.outputs[0], 'amount') else 1
     if rng.random() < 0.3:
         tx.locktime = rng.choice([1, 500000, 2 ** 32 - 1])
     if rng.random() < 0.2:
@@ -242,6 +260,7 @@ def check_input_signatures(run, model, env, rng, idx):
     case = {'kind': 'input-signatures', 'index': idx, 'raw': raw.hex(), 'spent_pubkey_hashes': [h.hex() for h in spent]}
     run.case(case, nontrivial=True, sample=(idx < 2))
     run.count('inputs=%d' % min(n_in, 6))
+    run.count('staged-assembly' if staged else 'direct-assembly')
     bad = None
     for i, x in enumerate(ptx['ins']):
         spent_script = p2pkh(spent[i])
